@@ -20,7 +20,8 @@ TECHNIQUE = ("runtime monitoring: validator state captured by rebinding parse_in
 RULE = (
     "case = 1-2 configuration recipes (both profiles, pictures and fragments, symmetric/asymmetric transforms, all subsamplings, "
     "fields/frames) + a variation set from vlib.gen.streams (padding/aux units, repeated sequence headers, next_parse_offset 0, "
-    "several sequences, HQ prefix bytes, raised slice_size_scaler, random slice padding bits, extra length, re-packed coefficient "
+    "several sequences, one sequence mixing the pictures of 2-3 sibling recipes whose slice counts/depths/wavelet/matrix/fragment size "
+    "differ (transform parameters change per picture, both directions), HQ prefix bytes, raised slice_size_scaler, random slice padding bits, extra length, re-packed coefficient "
     "payloads of magnitude class 1..2^40 with random qindex up to 127/255, dangling last values, short/zero-length blocks, free LD "
     "slice_y_length); distinct = distinct (recipes, variation, seed) hash; cases whose every recipe the encoder rejects are trivial"
 )
@@ -559,6 +560,7 @@ def evidence_extra(agg, tier):
         "pictures_captured_and_compared": c.get("compared_pictures", 0),
         "variation_strata": {k.split(":", 1)[1]: v for k, v in c.items() if k.startswith("variation:")},
         "magnitude_classes": {k.split(":", 2)[2]: v for k, v in c.items() if k.startswith("variation:repack:")},
+        "mixed_parameter_transitions": {k.split(":", 2)[2]: v for k, v in c.items() if k.startswith("gen:mixed:")},
     }
 
 
@@ -574,7 +576,7 @@ def _explain(e):
 # --------------------------------------------------------------------------
 REQUIRED_VARIATIONS = (
     "pad_units", "aux_units", "rep_seq_header", "npo_zero", "multi_seq", "prefix_bytes", "scaler_raised", "slice_padding",
-    "extra_length", "dangling", "short_block", "zero_block", "repack:1", "repack:3", "repack:40", "repack:2000", "repack:2^20",
+    "extra_length", "mixed_params", "dangling", "short_block", "zero_block", "repack:1", "repack:3", "repack:40", "repack:2000", "repack:2^20",
     "repack:2^40", "ld_ylen:natural", "ld_ylen:random", "ld_ylen:zero", "ld_ylen:all", "none",
 )
 
@@ -604,6 +606,12 @@ def floor(agg, tier):
         miss.append("no LD coefficient of 2^29 or more was compared")
     if c.get("compared_nonzero", 0) < 50000 * scale:
         miss.append("fewer than %d non-zero coefficients compared" % (50000 * scale))
+    for t, need in (("plain->frag", 60), ("frag->plain", 60), ("frag->frag", 100), ("geometry_change_into_frag", 100),
+                    ("geometry_change_into_plain", 100), ("geometry_change+plain->frag", 50), ("geometry_change+frag->plain", 50),
+                    ("slices_up", 40), ("slices_down", 40), ("dh_up", 20), ("dh_down", 20), ("dh1->0_same_d", 25), ("dh0->1_same_d", 25),
+                    ("d_up", 20), ("d_down", 20), ("wavelet_change", 40), ("matrix_change", 40)):
+        if c.get("gen:mixed:" + t, 0) < need * scale:
+            miss.append("mixed-parameter transition %s seen %d times (< %d)" % (t, c.get("gen:mixed:" + t, 0), need * scale))
     strata = [k for k in c if k.startswith("stratum:")]
     for must in ("LD/lossy/frag/sym", "LD/lossy/frag/asym", "LD/lossy/pic/sym", "LD/lossy/pic/asym", "HQ/lossy/frag/asym",
                  "HQ/lossless/pic/sym", "HQ/lossy/pic/asym", "HQ/lossless/frag/sym"):
